@@ -10,9 +10,9 @@ op:
   optional "paths":[n…] (histories over several output files): every step also carries
      "all":[{"target":…,"tmp":b}…] — the state of every listed output file after the run, in the order given
   "algo":"ops" steps the history with the operation-level program (`exportOps`, = "new" by `C31_ops_summary`)
-  optional "ops":true: every step also carries "ops": null (skipped) | {"prog":[op…],"same":[b…]} — the
-     primitive operations of the export (["open",p] | ["w",p] | ["wp",p] | ["replace",src,dst] | ["remove",p],
-     p = "out:n" | "tmp:n") and, after each of them, whether the run's output file is as before the run
+  optional "ops":true: every step also carries "ops": null (skipped) | {"n":k,"last":op,"midSame":b,"lastSame":b} — the
+     number of primitive operations of the export, the last one (["replace",src,dst] | ["remove",p], p = "out:n" |
+     "tmp:n"), whether the run's output file is as before the run after each operation but the last, and after the last
 -/
 open Lean Wire GenFile
 
@@ -62,10 +62,15 @@ def opJson : Op → Json
   | .replace s d => Json.arr #["replace", pathStr s, pathStr d]
   | .remove t => Json.arr #["remove", pathStr t]
 
-def opsInfoJson : Option (List Op × List Bool) → Json
+/-- summary of one run's operation program: number of operations, the last one, whether every operation
+before the last has an effect on the temporary sibling only ("midSame": the output file is untouched in
+every intermediate state) and whether the output file is as before after the last ("lastSame") -/
+def opsInfoJson : Option OpsInfo → Json
   | none => Json.null
-  | some (ops, same) => Json.mkObj [("prog", Json.arr (ops.map opJson).toArray),
-      ("same", Json.arr (same.map Json.bool).toArray)]
+  | some i => Json.mkObj [("n", toJson i.n),
+      ("last", match i.last with | some o => opJson o | none => Json.null),
+      ("midSame", Json.bool i.midOnly),
+      ("lastSame", Json.bool i.lastSame)]
 
 def handle (j : Json) : Json :=
   match getStr? j "op" with
@@ -88,7 +93,7 @@ def handle (j : Json) : Json :=
       | .error _ => some []
     match exp?, (getArr? j "runs").bind (fun a => a.toList.mapM parseRun), paths?, wantOps? with
     | some exp, some runs, some paths, some wantOps =>
-      let infos : List (Option (List Op × List Bool)) :=
+      let infos : List (Option OpsInfo) :=
         if wantOps then opsTrace FS.empty runs else runs.map fun _ => none
       let steps := ((traceOn exp paths FS.empty runs).zip infos).map fun ((o, tgt, tmp, all), info) =>
         Json.mkObj ([("outcome", Json.str (outcomeStr o)), ("target", contentJson tgt), ("tmp", Json.bool tmp)] ++
